@@ -329,6 +329,258 @@ class DocstringStripper(ast.NodeTransformer):
     visit_ClassDef = _strip
 
 
+# ---------------------------------------------------------------------------
+# second family (round 8): control-structure rewrites
+
+
+def _blocks(node):
+    for fld in ("body", "orelse", "finalbody"):
+        blk = getattr(node, fld, None)
+        if isinstance(blk, list) and blk and isinstance(blk[0], ast.stmt):
+            yield fld, blk
+    for h in getattr(node, "handlers", []) or []:
+        yield None, h.body
+
+
+def _ends(blk):
+    """the block cannot fall through"""
+    return bool(blk) and isinstance(
+        blk[-1], (ast.Return, ast.Raise, ast.Continue, ast.Break))
+
+
+class IfExpToIf(ast.NodeTransformer):
+    """x = a if c else b  ->  if c: x = a / else: x = b   (name targets)"""
+
+    def generic_visit(self, node):
+        super().generic_visit(node)
+        for fld, blk in list(_blocks(node)):
+            out = []
+            for st in blk:
+                if isinstance(st, ast.Assign) and len(st.targets) == 1 and \
+                        isinstance(st.targets[0], ast.Name) and \
+                        isinstance(st.value, ast.IfExp):
+                    t = st.targets[0]
+                    out.append(ast.If(
+                        st.value.test,
+                        [ast.Assign([ast.Name(t.id, ast.Store())],
+                                    st.value.body)],
+                        [ast.Assign([ast.Name(t.id, ast.Store())],
+                                    st.value.orelse)]))
+                else:
+                    out.append(st)
+            blk[:] = out
+        return node
+
+
+class ElseDenester(ast.NodeTransformer):
+    """if c: A; return  else: B   ->   if c: A; return   B"""
+
+    def generic_visit(self, node):
+        super().generic_visit(node)
+        for fld, blk in list(_blocks(node)):
+            out = []
+            for st in blk:
+                if isinstance(st, ast.If) and st.orelse and _ends(st.body) \
+                        and not (len(st.orelse) == 1 and isinstance(
+                            st.orelse[0], ast.If)):
+                    rest = st.orelse
+                    st.orelse = []
+                    out.append(st)
+                    out.extend(rest)
+                else:
+                    out.append(st)
+            blk[:] = out
+        return node
+
+
+class ElseNester(ast.NodeTransformer):
+    """if c: A; return   B...   ->   if c: A; return  else: B...
+    (function bodies and loop bodies, one level)"""
+
+    def _nest(self, blk):
+        for i, st in enumerate(blk):
+            if isinstance(st, ast.If) and not st.orelse and _ends(st.body) \
+                    and i + 1 < len(blk) and not any(
+                        isinstance(x, (ast.FunctionDef, ast.ClassDef))
+                        for x in blk[i + 1:]):
+                st.orelse = self._nest(blk[i + 1:])
+                return blk[:i + 1]
+        return blk
+
+    def visit_FunctionDef(self, node):
+        self.generic_visit(node)
+        node.body = self._nest(node.body)
+        return node
+
+
+class ConditionExtractor(ast.NodeTransformer):
+    """if COND: ...  ->  cond_x = COND; if cond_x: ...  for compound
+    conditions of plain if statements (not elif)"""
+
+    def visit_FunctionDef(self, node):
+        self.generic_visit(node)
+        used = {n.id for n in ast.walk(node) if isinstance(n, ast.Name)}
+        if any(u.startswith("cond_x") for u in used):
+            return node
+        if any(isinstance(n, (ast.Yield, ast.YieldFrom, ast.Lambda))
+               for n in ast.walk(node)):
+            pass
+        counter = [0]
+
+        def fix(blk, elif_pos=False):
+            out = []
+            for st in blk:
+                for fld, b in list(_blocks(st)):
+                    if isinstance(st, (ast.FunctionDef, ast.ClassDef)):
+                        continue
+                    is_elif = isinstance(st, ast.If) and fld == "orelse" \
+                        and len(b) == 1 and isinstance(b[0], ast.If)
+                    b[:] = fix(b, is_elif)
+                if isinstance(st, ast.If) and not elif_pos and isinstance(
+                        st.test, (ast.BoolOp, ast.Compare, ast.Call)) and \
+                        not any(isinstance(n, ast.NamedExpr)
+                                for n in ast.walk(st.test)):
+                    counter[0] += 1
+                    nm = "cond_x%d" % counter[0]
+                    out.append(ast.Assign([ast.Name(nm, ast.Store())],
+                                          st.test))
+                    st.test = ast.Name(nm, ast.Load())
+                out.append(st)
+            return out
+        node.body = fix(node.body)
+        return node
+
+
+class AndSplitter(ast.NodeTransformer):
+    """if a and b: X (no else)  ->  if a: if b: X"""
+
+    def visit_If(self, node):
+        self.generic_visit(node)
+        if not node.orelse and isinstance(node.test, ast.BoolOp) and \
+                isinstance(node.test.op, ast.And) and \
+                len(node.test.values) == 2:
+            a, b = node.test.values
+            return ast.If(a, [ast.If(b, node.body, [])], [])
+        return node
+
+
+class IfMerger(ast.NodeTransformer):
+    """if a: (only) if b: X  (no else on either)  ->  if a and b: X"""
+
+    def visit_If(self, node):
+        self.generic_visit(node)
+        if not node.orelse and len(node.body) == 1 and isinstance(
+                node.body[0], ast.If) and not node.body[0].orelse:
+            inner = node.body[0]
+            vals = []
+            for t in (node.test, inner.test):
+                if isinstance(t, ast.BoolOp) and isinstance(t.op, ast.And):
+                    vals.extend(t.values)
+                elif isinstance(t, ast.BoolOp):
+                    vals.append(t)
+                else:
+                    vals.append(t)
+            return ast.If(ast.BoolOp(ast.And(), vals), inner.body, [])
+        return node
+
+
+class FormatToPercent(ast.NodeTransformer):
+    """'{}.{}'.format(a, b) -> '%s.%s' % (a, b)  (auto-numbered plain
+    fields only, no '%' in the text)"""
+
+    def visit_Call(self, node):
+        self.generic_visit(node)
+        if isinstance(node.func, ast.Attribute) and \
+                node.func.attr == "format" and isinstance(
+                    node.func.value, ast.Constant) and isinstance(
+                        node.func.value.value, str) and not node.keywords \
+                and node.args and not any(isinstance(a, ast.Starred)
+                                          for a in node.args):
+            text = node.func.value.value
+            import re
+            if "%" in text or re.search(r"\{[^}]", text) or \
+                    "{{" in text or "}}" in text or \
+                    text.count("{}") != len(node.args):
+                return node
+            fmt = text.replace("{}", "%s")
+            right = node.args[0] if len(node.args) == 1 and not isinstance(
+                node.args[0], (ast.Tuple, ast.Name, ast.Attribute, ast.Call,
+                               ast.Subscript)) else ast.Tuple(
+                                   list(node.args), ast.Load())
+            return ast.BinOp(ast.Constant(fmt), ast.Mod(), right)
+        return node
+
+
+class ExplicitElse(ast.NodeTransformer):
+    """if c: A  ->  if c: A else: pass"""
+
+    def visit_If(self, node):
+        self.generic_visit(node)
+        if not node.orelse:
+            node.orelse = [ast.Pass()]
+        return node
+
+
+class DictCallToLiteral(ast.NodeTransformer):
+    """dict(a=1, b=2) -> {'a': 1, 'b': 2}"""
+
+    def visit_Call(self, node):
+        self.generic_visit(node)
+        if isinstance(node.func, ast.Name) and node.func.id == "dict" and \
+                not node.args and node.keywords and all(
+                    k.arg is not None for k in node.keywords):
+            return ast.Dict([ast.Constant(k.arg) for k in node.keywords],
+                            [k.value for k in node.keywords])
+        return node
+
+
+class ForTupleToList(ast.NodeTransformer):
+    """for x in (a, b): -> for x in [a, b]:   and   x in (a, b) -> x in
+    [a, b] is left alone (only loops)"""
+
+    def visit_For(self, node):
+        self.generic_visit(node)
+        if isinstance(node.iter, ast.Tuple):
+            node.iter = ast.List(node.iter.elts, ast.Load())
+        return node
+
+
+class MethodSorter(ast.NodeTransformer):
+    """the plain methods of a class (no decorators) are put in
+    alphabetical order behind everything else of the class body"""
+
+    def visit_ClassDef(self, node):
+        self.generic_visit(node)
+        meths = [st for st in node.body if isinstance(st, ast.FunctionDef)
+                 and not st.decorator_list]
+        names = [m.name for m in meths]
+        if len(set(names)) != len(names):
+            return node
+        last_other = max([i for i, st in enumerate(node.body)
+                          if st not in meths] or [-1])
+        first_meth = min([i for i, st in enumerate(node.body)
+                          if st in meths] or [len(node.body)])
+        if last_other > first_meth:
+            # something in the class body follows a method (an alias such as
+            # visit_X = visit_Y): keep the order
+            return node
+        others = [st for st in node.body if st not in meths]
+        node.body = others + sorted(meths, key=lambda m: m.name)
+        return node
+
+
+MODES2 = ("ifexp-to-if", "else-denest", "else-nest", "extract-condition",
+          "and-split", "if-merge", "format-to-percent", "explicit-else",
+          "dict-literal", "for-list", "methods-sorted")
+MODES = MODES + MODES2
+_MODE2 = {"ifexp-to-if": IfExpToIf, "else-denest": ElseDenester,
+          "else-nest": ElseNester, "extract-condition": ConditionExtractor,
+          "and-split": AndSplitter, "if-merge": IfMerger,
+          "format-to-percent": FormatToPercent, "explicit-else": ExplicitElse,
+          "dict-literal": DictCallToLiteral, "for-list": ForTupleToList,
+          "methods-sorted": MethodSorter}
+
+
 def rewrite(mode, tmp):
     root = os.path.join(tmp, "src", "chameleon")
     for dp, dn, fns in os.walk(root):
@@ -360,6 +612,8 @@ def rewrite(mode, tmp):
             elif mode == "strip-docstrings":
                 tree = ast.fix_missing_locations(
                     DocstringStripper().visit(tree))
+            elif mode in _MODE2:
+                tree = ast.fix_missing_locations(_MODE2[mode]().visit(tree))
             elif mode.startswith("rename-some"):
                 import random
                 r = Renamer()
